@@ -213,8 +213,8 @@ SPECS = {
     }, bucket_k=8),
     "C09": Spec("C09", "B", {
         "quick": {"buckets": 480, "soft_s": 100, "hard_s": 480, "recheck_every": 6},
-        # the first 720 buckets are the enumerated configuration grid (worlds_b.c09_grid), the rest is seeded search
-        "thorough": {"buckets": 720 + 6400, "soft_s": 1800, "hard_s": 3000, "recheck_every": 12},
+        # the first 760 buckets are the enumerated configuration grid (worlds_b.c09_grid), the rest is seeded search
+        "thorough": {"buckets": 760 + 6400, "soft_s": 1800, "hard_s": 3000, "recheck_every": 12},
     }, bucket_k=8),
     "C18": Spec("C18", "B", {
         "quick": {"buckets": 480, "soft_s": 100, "hard_s": 480, "recheck_every": 6},
